@@ -49,6 +49,9 @@ def gen_for(pid, rng, tier):
             spec["constraints"] = solvergen.gen_pushing_constraints(rng, spec["dim"], (spec["ranges"][0], spec["ranges"][1]))
             spec["inplace"] = rng.random() < 0.5
             spec["pushing"] = True
+            # conflicting members make and_(constraints, bounds) cycle to its iteration cap on EVERY application (seconds per
+            # Powell line search): a few iterations exercise the clause as well as many
+            spec["ops"] = spec["ops"][:3]
     elif pid == "C03":
         spec = solvergen.gen_spec(rng, maxdim=maxdim, nsteps=nsteps, flavour="steps" if k < 0.6 else "ops")
         if spec.get("constraints") is None:
